@@ -23,3 +23,26 @@ M = [
     "                        m.d.comb += intr_bus_stall.eq(getattr(self.bus, \"stall\", ~self.bus.ack))\n")],
   None),
 ]
+
+def _rename_all(path, pairs):
+    """(old, new) applied to every occurrence: expressed as one whole-file replacement computed at load time."""
+    import os
+    repo = os.environ.get("VERIF_REPO", "/repo")
+    with open(os.path.join(repo, path)) as f:
+        old = f.read()
+    import re
+    new = old
+    for a, b in pairs:
+        new = re.sub(r"(?<![A-Za-z0-9_])" + re.escape(a) + r"(?![A-Za-z0-9_])", b, new)
+    return [(old, new)]
+
+
+M += [
+ ("u04_rename_memorymap_private", "amaranth_soc/memory.py",
+  _rename_all("amaranth_soc/memory.py", [("_ranges", "_rmap"), ("_next_addr", "_cursor"), ("_resources", "_res_table"),
+                                          ("_windows", "_win_table"), ("_starts", "_lo"), ("_stops", "_hi")]), None),
+ ("u05_rename_decoder_arbiter_private", "amaranth_soc/wishbone/bus.py",
+  _rename_all("amaranth_soc/wishbone/bus.py", [("_subs", "_children"), ("_intrs", "_masters")]), None),
+ ("u06_rename_builder_eventmap_private", "amaranth_soc/csr/reg.py",
+  _rename_all("amaranth_soc/csr/reg.py", [("_scope_stack", "_scopes")]), None),
+]
